@@ -206,6 +206,8 @@ def run(ctx):
     d2_data_owners(ctx, committer, appenders)
     d2_commit_counts(ctx, committer, appenders)
     truncate_commit_matches_resize(ctx, 'D2', committer)
+    from ._shared import reset_handler_protects_write_only
+    ctx.floor('handlers that empty the data file', reset_handler_protects_write_only(ctx, 'D2', committer), 1)
     # crash states of an append are "original data + a whole number of the appended chunks": append(x) offers x as ONE
     # chunk (shared with C09) — cut into physical pieces, a crash after the first piece's commit shows a prefix of x
     from .C09 import append_is_one_chunk
@@ -220,6 +222,25 @@ def run(ctx):
     d1_contiguity(ctx, ctx.repo.cls('RaggedArray'), step_, appenders)
     d3_two_file_order(ctx, committer)
     d4_whole_file_rewrites(ctx)
+    # opening after a crash only reads: a constructor that "repairs" what it finds (e.g. rewrites the description to the
+    # row count implied by the file size) turns a torn append into a state that opens and shows a partial chunk
+    for cname in ('Array', 'RaggedArray'):
+        init = ctx.repo.cls(cname).methods.get('__init__')
+        eff = [e for e in ctx.E.may(init) if e.kind in MUTATING] if init is not None else []
+        ctx.decide(init is not None and not eff, 'R-OWN', 'D1', init, None, f'constructor-effect-free::{cname}',
+                   f'{cname}.__init__ performs no file-system mutation (opening never rewrites what a crash left behind)',
+                   detail='opening can write: ' + '; '.join(e.describe() for e in eff[:3]))
+    # the recovery path of iterappend commits exactly the completed chunks (shared with C09/C02)
+    from .C09 import recover
+    c_ = ctx.repo.cls('Array')
+    f_ = c_.methods['iterappend']
+    arr_app = [a for a in appenders if a.cls is c_]
+    for n_, cal in ctx.E.callees(f_):
+        if cal in arr_app and isinstance(n_, ast.Call):
+            recover(ctx, f_, c_, n_, f'appender call {norm(n_.func)}', committer, arr_app)
+    # ... and what it commits is the counter of completely written chunks, never a count derived from the file size
+    from .C09 import d2_accumulator
+    d2_accumulator(ctx, f_, committer, arr_app)
     from ._shared import inplace_rewrites_truncate
     inplace_rewrites_truncate(ctx, 'D4')
 
